@@ -195,7 +195,7 @@ def _real_job(args):
 def _real_specs(ctx):
     specs = []
     sizes = ctx.pick([6, 9, 16, 30, 64, 120], [6, 7, 9, 12, 16, 25, 30, 49, 64, 100, 120, 200])
-    reps = ctx.pick(1, 12)
+    reps = ctx.pick(1, 8)
     idx = 0
     for rep in range(reps):
         for fam in gen_centres.FAMILIES:
@@ -238,7 +238,7 @@ def _relay(ctx, verdicts, payloads):
 
 def run(ctx):
     cfg = ctx.pick("MC_Tessellation.cfg", "MC_Tessellation_thorough.cfg")
-    res = ctx.mc("MC_Tessellation", cfg, timeout=ctx.pick(600, 3000), heap="6g")
+    res = ctx.mc("MC_Tessellation", cfg, timeout=ctx.pick(600, 3000), heap="3g")
     payloads, jobs = {}, []
     case = 0
     for inst in res.printed:
@@ -255,7 +255,7 @@ def run(ctx):
     for k in range(0, len(jobs), batch):
         results = core.parallel_map(_mc_job, jobs[k:k + batch], chunksize=64)
         if k + batch < len(jobs):
-            verdicts.update(ctx.validate("Trace_Tessellation", results, timeout=ctx.pick(900, 3000), heap="3g"))
+            verdicts.update(ctx.validate("Trace_Tessellation", results, timeout=ctx.pick(900, 3000), heap="1g"))
             results = []
     del jobs
     rjobs = []
@@ -269,7 +269,7 @@ def run(ctx):
         payloads[cid] = dict(by_case[cid], kind="real", max_distance=("inf" if md == float("inf") else md))
         ctx.add_case(payloads[cid], nontrivial=nkept >= 2)
         results.append((cid, evs))
-    verdicts.update(ctx.validate("Trace_Tessellation", results, timeout=ctx.pick(900, 3000), heap="3g"))
+    verdicts.update(ctx.validate("Trace_Tessellation", results, timeout=ctx.pick(900, 3000), heap="1g"))
     _relay(ctx, verdicts, payloads)
     ctx.rule = ("(a) TLC enumerates abstract Voronoi outputs: patches (square grids up to 3x3 regions, hexagon "
                 "patches, an irregular fan with a pentagon, corner-touching and isolated regions; axis-aligned, "
@@ -303,5 +303,5 @@ def replay(ctx, payload):
             evs, _, _ = real_case(c, inp)
     ctx.add_case(inp)
     ctx.add_case({"replay": True})
-    v = ctx.validate("Trace_Tessellation", [(c, evs)])
+    v = ctx.validate("Trace_Tessellation", [(c, evs)], heap="1g")
     _relay(ctx, v, {c: inp})
